@@ -1210,17 +1210,21 @@ class _WireReader:
                         raise UnknownTSIGKey(f"key '{name}' unknown")
                     if key:
                         self.message.keyring = key
-                        self.message.tsig_ctx = dns.tsig.validate(
-                            self.parser.wire,
-                            key,
-                            absolute_name,
-                            rd,
-                            int(time.time()),
-                            self.message.request_mac,
-                            rr_start,
-                            self.message.tsig_ctx,
-                            self.multi,
-                        )
+                        try:
+                            self.message.tsig_ctx = dns.tsig.validate(
+                                self.parser.wire,
+                                key,
+                                absolute_name,
+                                rd,
+                                int(time.time()),
+                                self.message.request_mac,
+                                rr_start,
+                                self.message.tsig_ctx,
+                                self.multi,
+                            )
+                        except NotImplementedError:
+                            # The peer chose an algorithm we have no implementation of.
+                            raise dns.tsig.BadAlgorithm
                     self.message.tsig = dns.rrset.from_rdata(absolute_name, 0, rd)
                 else:
                     rrset = self.message.find_rrset(
